@@ -1015,6 +1015,11 @@ class Wrapc(util.WrapperMixin):
                     
             arg_typemap, specialize = statements.lookup_c_statements(arg)
             header_typedef_nodes[arg_typemap.name] = arg_typemap
+            if arg.is_function_pointer():
+                # The prototype spells out the types of the parameters
+                # of the function pointer: their headers are needed too.
+                for param in arg.params or []:
+                    header_typedef_nodes[param.typemap.name] = param.typemap
             cxx_local_var = ""
 
             self.set_fmt_fields(cls, node, arg, arg_typemap, fmt_arg, False)
